@@ -46,9 +46,24 @@ PROP = dict(
         "goroutine count: runtime fact, oracle go.client.goroutines (300 warm-up calls, then 3000/10000 calls, growth <= 8) and registry-leak "
         "(queries empty after every scenario); the theorem no_leak_model is about the registry only",
         "deadlock freedom beyond reader_never_blocks (e.g. Connection.reader blocked on the unbuffered resp channel when no Client reads it) is not modelled",
-        "authentication path (authKey) not modelled; liveness observations: a stale `go reconnect()` spawned by an earlier failing Send can "
-        "tear down a freshly re-established connection (guard only tests the status) — admitted by the model (reconnectStart with spawned > 0), "
-        "seen in real histories, bounded by the number of failed sends; handshake of reconnect has no deadline",
+        "authentication path (authKey) not modelled",
+        "OBSERVATION 1 (stale reconnect) — decided: NOT a violation. A `go reconnect()` spawned by a failing Send can run after the "
+        "reconnect has completed (the guard only tests status == Connecting) and tear down the fresh connection; calls in flight on it "
+        "time out by their deadline (which the statement allows for unanswered calls) and one more reconnect follows. Only write failures "
+        "on a Connected connection spawn such goroutines and none is spawned while Connecting, so their number is bounded by the failed "
+        "sends of the burst before the first reconnect: reconnection is still bounded and later calls succeed. The model admits the "
+        "behaviour (reconnectStart with spawned > 0), it occurs in validated real histories, and every chaos scenario ends with the "
+        "oracles not-reconnected-within-15s / client-not-usable-after-drops, which pass",
+        "OBSERVATION 2 (no read deadline in the client handshake) — decided: NOT a violation of the statement as quantified. The fault "
+        "sequences of C12 are connection DROPS (mid-request, idle, during reconnect): a peer that closes during the handshake gives EOF and the "
+        "reconnect loop retries after 1 s (exercised by the slow chaos scenarios). The unbounded case needs a peer that accepts the TCP "
+        "connection and then neither answers nor closes, which no server implementing the specification does; it is fairness assumption F4 "
+        "of reconnect_bounded. It remains a robustness weakness (reconnect() then blocks in ParsePacket for ever, status stays Connecting)",
+        "OBSERVATION 3 (deaf but Connected after a parse error) — decided: NOT a violation of C12. A parse error needs a corrupted stream or "
+        "a frame outside 64..8 MiB, i.e. a C11 fault, not a drop/reorder/duplicate history of C12; the server has not closed the connection, "
+        "so 'after the server closes the connection the client reconnects' does not apply, and calls on that connection still return timeout "
+        "by their deadline. C11 only requires that the bad frame is not delivered (it is not). It remains a robustness weakness: "
+        "handleIncomingPackets closes its channel, Connection.reader returns, nothing closes the socket, status stays Connected until a Send fails",
     ],
     level="proof",
     level_text="Lean 4 theorems over a labelled transition system of the request path, for every reachable state / every enabled action "
